@@ -114,6 +114,7 @@ def _jobs(tier):
         add(n=3, leverage=1, mode='isolated', exch='spot', side='long', stop=False)
         add(n=3, leverage=5, mode='isolated', exch='futures', side='long', stop=False, kind='T2')
         add(n=3, leverage=10, mode='isolated', exch='futures', side='long', stop=False, kind='T3p')
+        add(n=6, leverage=10, mode='isolated', exch='futures', side='long', stop=False, fast=True, tf='3m', sym_from=4)  # fast-mode chunk
     else:
         for L in (2, 3, 5, 10, 20, 50, 100, 125):
             for side in ('long', 'short'):
